@@ -217,3 +217,23 @@ Example tw_move_assign_drops_duty :
   forallb fin (thr s) = true /\ hs (gl s) (line_exp P 0) <> [] /\ hs (gl s) (line_exp P 1) = [] /\
   destroyed (gl s) (line_exp P 1) = 0%nat /\ faulted 0 (gl s) = false.
 Proof. vm_compute. repeat split; discriminate. Qed.
+
+(* a detector created by one thread and polled by another ("every detector on that line, in every
+   thread"): the program is inside the discipline, t2 observes the trip through t1's detector and reads 7 *)
+Example ex_shared_detector :
+  let progs := [[MkTrigE 0 0; WriteData 0 7; Destroy 0]; [MkSDetE 0 0; SPollRead 0 0]; [SPollRead 0 0; SIsTripped 0]] in
+  let P := mkP false true tw_store_mo tw_load_mo 3 1 1 3 in
+  let s := runT P progs [(1,0);(1,0);(0,0);(0,0);(0,0);(0,0);(0,0);(0,0);(2,0);(2,0);(2,0);(2,0);(2,0);(2,0);(1,0);(1,0);(1,0);(1,0)]%nat in
+  wf_pub P 0 4 0 progs = true /\ grace (gl s) 0 = false /\ forallb fin (thr s) = true /\ sdet (gl s) 0 = Some 4%nat.
+Proof. vm_compute. repeat split. Qed.
+
+(* the creator of an explicit line drops its own handle (ReleaseLine): the line lives on in the trigger
+   and the detector that hold it, the detector still reports the trip; new attachments are refused *)
+Example ex_release_line :
+  let progs := [[MkDetE 0 0; MkTrigE 0 0; ReleaseLine 0; Destroy 0; IsTripped 0; MkDetE 1 0]] in
+  let P := mkP false false tw_store_mo tw_load_mo 3 1 0 1 in
+  let s := runT P progs [(0,0);(0,0);(0,0);(0,0);(0,0);(0,0)]%nat in
+  released (gl s) 0 = true /\ load_val P 0 0 4 (gl s) = 1 /\
+  (let s' := runT P progs [(0,0);(0,0);(0,0);(0,0);(0,0);(0,0);(0,0);(0,0)]%nat in
+   forallb fin (thr s') = true /\ det (locof (thr s') 0) 1 = None /\ faulted 0 (gl s') = false).
+Proof. vm_compute. repeat split. Qed.
